@@ -436,11 +436,13 @@ class Note:
 
     def copy(self):
         """ """
-        return Note(self.type, self.val, self.octave, self.duration, mode=self.mode, accident=self.accident,
+        res = Note(self.type, self.val, self.octave, self.duration, mode=self.mode, accident=self.accident,
                     amp=self.amp, tags=set(self.tags),
                     tempo=self.tempo,
                     pedal=self.pedal
                     )
+        res.duration = self.duration
+        return res
 
     def repeated_notes_to_legato(self):
         return self.to_melody().repeated_notes_to_legato()
@@ -1079,6 +1081,7 @@ class Silence(Note):
         """ """
         res = Silence(self.duration, tempo=self.tempo, pedal=self.pedal, tags=set(self.tags))
         res.octave = self.octave
+        res.duration = self.duration
         return res
 
 
@@ -1096,4 +1099,5 @@ class Continuation(Note):
         """ """
         res = Continuation(self.duration, pedal=self.pedal, tags=set(self.tags))
         res.octave = self.octave
+        res.duration = self.duration
         return res
